@@ -65,7 +65,7 @@ func GetCache(cacheFile string) MemCache {
 	b, err := ioutil.ReadFile(cacheFile)
 	if err == nil {
 		err = json.Unmarshal(b, &mem)
-		if err == nil && mem.ShardNo == shardNo {
+		if err == nil && mem.ShardNo == shardNo && mem.Cache.usable() {
 			return mem.Cache
 		}
 	}
@@ -76,6 +76,21 @@ func GetCache(cacheFile string) MemCache {
 	}
 
 	return m
+}
+
+// usable reports whether a loaded cache has every shard and every shard its map
+// (a damaged or hand-edited file can decode to fewer shards, null shards or
+// shards without templates)
+func (m MemCache) usable() bool {
+	if len(m) != shardNo {
+		return false
+	}
+	for _, shard := range m {
+		if shard == nil || shard.Templates == nil {
+			return false
+		}
+	}
+	return true
 }
 
 func (m MemCache) getShard(id uint16, addr net.IP) (*TemplatesShard, uint32) {
